@@ -36,7 +36,8 @@ AllFn  == ToFn(AllItems)
 IsLca(id) == AllFn[id].wsize = 1 /\ "cvals" \in DOMAIN AllFn[id]
 DvFn  == [id \in {x \in DOMAIN AllFn : "val" \in DOMAIN AllFn[x]} |-> AllFn[id]]
 LcaFn == [id \in {x \in DOMAIN AllFn : "cvals" \in DOMAIN AllFn[x]} |-> AllFn[id]]
-AllPairs == [q1 |-> Pair(Chain, "d1", 1, "n1"), q2 |-> Pair(Chain, "d2", 2, "n1"), q3 |-> Pair(Chain, "d3", 3, "n3")]
+AllPairs == [q1 |-> Pair(Chain, "d1", 1, "n1"), q2 |-> Pair(Chain, "d2", 2, "n1"), q3 |-> Pair(Chain, "d3", 3, "n3"),
+             v2 |-> PrevotePair(Chain, "d2", 2, "n1"), v3 |-> PrevotePair(Chain, "d3", 3, "n3")]
 
 CaseCtx == Chain @@ [dv |-> DvFn, lca |-> LcaFn, pairs |-> AllPairs]
 
@@ -53,7 +54,9 @@ QuickLca == {"l3genuine", "l3fewer"}
 QuickCtx == Chain @@ [dv |-> Restrict(DvFn, QuickDv \cup {"d2valsnext"}), lca |-> Restrict(LcaFn, QuickLca),
                       pairs |-> Restrict(AllPairs, {"q3"})]
 \* the weakened specs are checked with both pairs (late votes of n1 at 2 need q2)
-WeakCtx == [QuickCtx EXCEPT !.pairs = Restrict(AllPairs, {"q2", "q3"})]
+\* ... and with the prevote pair of n1 at 2 next to its precommit pair
+WeakCtx == [QuickCtx EXCEPT !.pairs = Restrict(AllPairs, {"q2", "q3", "v2"}),
+                            !.dv = Restrict(DvFn, QuickDv \cup {"d2valsnext", "d2prevotes"})]
 QuickIds == QuickDv \cup QuickLca
 QuickBegin == {"d2genuine"}
 
